@@ -574,6 +574,9 @@ class Translator:
             return f"Raise {kind}"
         if fam in ("lt", "value", "mapvalue"):
             self.fail(node, "a raise can be reached in a method that is used as a pure function (sort key / property)")
+        if fam == "add" and env.state.get("reparented"):
+            self.fail(node, "add() can raise after it has set the child's _parent: a refused add would leave the child "
+                            "re-parented (its extended key then points into the map that refused it)")
         return f"MExn {kind} {self.state_term(node, env)}"
 
     def ret(self, node, env, v):
@@ -822,7 +825,11 @@ class Translator:
             if attr == "_parent" and tv is not None and tv.ty == "P" and fam == "add" and \
                     isinstance(value, ast.Name) and value.id == "self":
                 self.ctx.sets_parent = True
-                return k(env)
+                # the model reads a parameter's parent from its position in the tree, so re-parenting must
+                # coincide with the registration: no raise may be reachable once the child is re-parented
+                e2 = env.clone()
+                e2.state["reparented"] = True
+                return k(e2)
             self.fail(node, f"assignment to {owner}.{attr}")
         if isinstance(target, ast.Subscript):
             # self._value[k] = v
